@@ -91,6 +91,13 @@ func runC17(p *Program, r *Result) {
 				if !hookEmpty {
 					continue // test mode
 				}
+				// the hook tested twice with opposite outcomes: no run takes this way
+				if _, hookSet := findFact(atoms, func(a Atom) bool {
+					k, isK := intConst(a.Y)
+					return a.Kind == "cmp" && isK && short(a.X.String()) == "len(plugin.testOnlyPluginPath)" && (a.Op == "!=" && k == 0 || a.Op == ">=" && k == 1 || a.Op == ">" && k == 0)
+				}); hookSet {
+					continue
+				}
 				np++
 				idx := blockIndexOnPath(pa, ec.Block())
 				arg := pa.ResolveAt(ec.Common().Args[0], idx)
